@@ -29,7 +29,7 @@
       well founded (the only same-order occurrence of W on the right is multiplied by the
       zeroth order of U', which is 0).                                        *)
 From Coq Require Import String List ZArith Bool Arith.
-From PV.DSL Require Import Syntax Values.
+From PV.DSL Require Import Syntax SyntaxAux Values.
 Import ListNotations.
 Set Implicit Arguments.
 
@@ -67,6 +67,14 @@ Fixpoint lsub (n m : list nat) : list nat :=
   match n, m with
   | x :: n', y :: m' => (x - y) :: lsub n' m'
   | _, _ => []
+  end.
+
+(** tuple comparison  a > b  (lexicographic) *)
+Fixpoint lex_gt (a b : list nat) : bool :=
+  match a, b with
+  | x :: a', y :: b' => if Nat.ltb y x then true else if Nat.ltb x y then false else lex_gt a' b'
+  | _ :: _, [] => true
+  | _, _ => false
   end.
 
 (** cost(orders) = prod (i + 1)^2 *)
@@ -144,12 +152,15 @@ Section Interp.
             ((fix go (l : list arg) : option (list V) :=
                 match l with
                 | [] => Some []
-                | ArgSeries s :: r =>
-                    obind (iseries_arg f s) (fun x => obind (go r) (fun xs => Some (x :: xs)))
-                | ArgExpr (Lit s) :: r =>
-                    obind (iseries_arg f s) (fun x => obind (go r) (fun xs => Some (x :: xs)))
-                | ArgExpr a :: r =>
-                    obind (iexpr a) (fun x => obind (go r) (fun xs => Some (x :: xs)))
+                | a :: r =>
+                    obind (match arg_series a with
+                           | Some s => iseries_arg f s
+                           | None => match a with
+                                     | ArgExpr e' => iexpr e'
+                                     | ArgSeries s => iseries_arg f s
+                                     end
+                           end)
+                          (fun x => obind (go r) (fun xs => Some (x :: xs)))
                 end) args)
       | IfFlag c a b => if flag_value c idx then iexpr a else iexpr b
       end.
@@ -180,49 +191,64 @@ Section Interp.
                else ibody name r acc
       end.
 
-    (** Cauchy product of the series [k1] and [k2] at [idx] *)
-    Fixpoint iprod_loop (k1 k2 : key) (l : list (nat * list nat)) (acc : V) : option V :=
+    (** One term a * b of a Cauchy product, non-strict: [Some None] = the term is 0 because one
+        factor is 0 (the other one is not needed), [Some (Some t)] = the product, [None] =
+        undefined.  The two factors are given as thunks; [first_a] says which one is looked at
+        first - semantically irrelevant (the definition is symmetric up to 0*x = x*0 = 0);
+        looking first at the factor of lower order keeps the definition executable on
+        recurrences. *)
+    Definition lazy_term (first_a : bool) (fa fb : unit -> option V) : option (option V) :=
+      if first_a then
+        match fa tt with
+        | Some a =>
+            if vis0 O a then Some None
+            else match fb tt with Some b => Some (Some (vmul O a b)) | None => None end
+        | None =>
+            match fb tt with
+            | Some b => if vis0 O b then Some None else None
+            | None => None
+            end
+        end
+      else
+        match fb tt with
+        | Some b =>
+            if vis0 O b then Some None
+            else match fa tt with Some a => Some (Some (vmul O a b)) | None => None end
+        | None =>
+            match fa tt with
+            | Some a => if vis0 O a then Some None else None
+            | None => None
+            end
+        end.
+
+    (** Cauchy product of the series [k1] and [k2] at [idx].
+        [half = false] : THE SPECIFICATION, the full sum.
+        [half = true]  : the half-sum of product_by_order(hermitian=True) on a diagonal block
+        (terms with orders_1st > orders_2nd dropped, the others counted with their adjoint);
+        not part of the specification - used to state when the shortcut is valid. *)
+    Fixpoint iprod_loop (half : bool) (k1 k2 : key) (l : list (nat * list nat)) (acc : V) : option V :=
       match l with
       | [] => Some acc
       | (mid, m1) :: r =>
+          let m2 := lsub (idx_n idx) m1 in
           let i1 := (idx_i idx, mid, m1) in
-          let i2 := (mid, idx_j idx, lsub (idx_n idx) m1) in
-          let next := iprod_loop k1 k2 r in
-          (* the order in which the two factors are looked at is semantically irrelevant
-             (the definition is symmetric up to 0 * x = x * 0 = 0); looking first at the
-             factor of lower order keeps the definition executable on recurrences *)
-          if Nat.leb (cost m1) (cost (lsub (idx_n idx) m1)) then
-            match sub k1 i1 with
-            | Some a =>
-                if vis0 O a then next acc
-                else match sub k2 i2 with
-                     | Some b => next (vadd O acc (vmul O a b))
-                     | None => None
-                     end
-            | None =>
-                match sub k2 i2 with
-                | Some b => if vis0 O b then next acc else None
-                | None => None
-                end
-            end
+          let i2 := (mid, idx_j idx, m2) in
+          if half && lex_gt m1 m2 then iprod_loop half k1 k2 r acc
           else
-            match sub k2 i2 with
-            | Some b =>
-                if vis0 O b then next acc
-                else match sub k1 i1 with
-                     | Some a => next (vadd O acc (vmul O a b))
-                     | None => None
-                     end
-            | None =>
-                match sub k1 i1 with
-                | Some a => if vis0 O a then next acc else None
-                | None => None
-                end
+            match lazy_term (Nat.leb (cost m1) (cost m2)) (fun _ => sub k1 i1) (fun _ => sub k2 i2) with
+            | None => None
+            | Some None => iprod_loop half k1 k2 r acc
+            | Some (Some t) =>
+                if half && negb (lnat_eqb m1 m2)
+                then iprod_loop half k1 k2 r (vadd O (vadd O acc t) (vadj O t))
+                else iprod_loop half k1 k2 r (vadd O acc t)
             end
       end.
 
-    Definition iprod (k1 k2 : key) : option V :=
-      iprod_loop k1 k2 (pbo_space (sw_nb W) (idx_n idx)) (v0 O).
+    Definition iprod_gen (half : bool) (k1 k2 : key) : option V :=
+      iprod_loop half k1 k2 (pbo_space (sw_nb W) (idx_n idx)) (v0 O).
+
+    Definition iprod (k1 k2 : key) : option V := iprod_gen false k1 k2.
 
     Definition rhs (k : key) : option V :=
       match k with
